@@ -104,6 +104,11 @@ def run_unit(unit, tier):
         elif kind != 'tiny':
             nrej += 1
             res.nontrivial += 1
+    for text in ('', '---\n', '# only a comment\n'):
+        # an empty document denotes the null value
+        res.states += 1
+        res.transitions += 1
+        compare(case, text, ('s', models.P + 'null', ''), res, fam, 'empty')
     res.hist['models'] += 1
     res.hist['family:' + fam] += 1
     if nacc == 0 or (nrej == 0 and 'any' not in str(spec['root'])):
@@ -124,7 +129,8 @@ def finish(total, tier):
 def replay(payload):
     case = loadcase.Case(payload['spec'])
     res = core.Result()
-    back = models.view(case.R.compose(payload['text']))
+    node = case.R.compose(payload['text'])
+    back = models.view(node) if node is not None else ('s', models.P + 'null', '')
     compare(case, payload['text'], back, res, payload.get('fam', '?'), payload.get('mutation', '?'))
     if res.violations:
         return True, res.violations[0]['what']
